@@ -37,7 +37,15 @@ RULE = ('random template trees (depth <= 4) over table/point/constant/function(p
         'answer of a freshly built unshared copy queried once; deterministic families for parameters as table/point entry '
         'TIMES (first entry in particular), the longest channel dropped/renamed by a mapping, a mapping that rebinds the '
         'loop index to an expression of itself, swap/shift/cyclic mappings, parameters called t, declared-empty scalar / '
-        'overwrite dictionaries, the same template twice.  Observation: '
+        'overwrite dictionaries, the same template twice; round 4 (deterministic): for-loop ranges whose iteration count '
+        'ceiling((stop-start)/step) is exactly 0 / -1 / 1 (numeric, symbolic, half-symbolic bounds, bodies with non-zero '
+        'integral and duration at the start index, 9 wrappers); time dependent scalars with s(0) != s(duration) for every '
+        'operator (+ - * and template / scalar), operand order, scalar form and atom kind, bare / in sequences / loops / '
+        'repetitions (for / only duration and the two end values are observed); mappings that send a parameter to an '
+        'expression of a name bound by an inner loop, loop ranges that mention the loop index\'s own name (Python oracle); '
+        'coverage-driven: time dependent scalars over point / multi-channel / pulse-arithmetic / mapped atoms, MappingPT / '
+        'ArithmeticPT inside atomic parents, python numbers as ConstantPT arguments, declared multi-channel duration, pad_to '
+        'with a callable / pt_kwargs / the current duration.  Observation: '
         'integral/initial_values/final_values/duration evaluated exactly (sympy rationals), the real program of '
         'create_program integrated leaf by leaf with an open 3-point rule on a 1/16 grid (exact for piecewise cubics with '
         'breakpoints on the grid; cross-checked on a 1/8 grid), its first and last samples, and the program of '
@@ -51,8 +59,11 @@ TRUSTED = [
     'case by check_corr)',
     'harness: generators, Gallina printers, leaf walker and the open Newton-Cotes integrator over get_sampled output',
     'numpy float arithmetic is exact on the generated dyadic inputs (checked per case: samples must be dyadic, two grids agree)',
-    'the Python oracle (py_spec) for time dependent scalars multiplied with TABLE atoms (no Coq model); + and -, and * over '
-    'constant / polynomial atoms are embedded in the model',
+    'the Python oracle (py_spec) for time dependent scalars multiplied with TABLE / point / composite atoms and for template / '
+    'time dependent scalar (no Coq model); + and -, and * over constant / polynomial atoms are embedded in the model; the '
+    'Python oracle for for-loops whose range mentions the loop index\'s own name (outside Wf.wf)',
+    'harness/props/c07_disc.py: the fail-closed AST dataflow analysis that writes coq/C07/GenDisc.v (which dictionary object '
+    'a property returns); pad_to call styles (callable / pt_kwargs / current duration) are compared with the plain call in Python',
     'the aliasing / history stream compares the real code with itself (shared and queried repeatedly vs freshly built and '
     'queried once) in Python; the post-history observations additionally go through check_corr / check_spec',
 ]
@@ -68,10 +79,12 @@ ASSUMPTIONS = [
     'polynomial (Embed.arith_tm), * over tables is outside the model (Python-oracle stream), / is not covered; '
     'measurements/constraints are outside the model',
     'the model substitutes capture free (ELet evaluates bindings in the outer environment); sympy.subs into a ForLoopPT '
-    'Sum(...) is not: a MappingPT that maps a parameter to an expression naming an inner loop index is the known finding '
-    'mapping-captures-loop-index (generated on purpose; excluded from nothing, classified by mapping_captures)',
-    'the object discipline of Hist.v (which dictionary object a query returns / rewrites) is hand-written from the source; '
-    'its tie to the code is the aliasing / history stream',
+    'Sum(...) was not (former known finding mapping-captures-loop-index); since the /repo repair 7d773a1 (clashing bound '
+    'symbols renamed to sympy.Dummy) such inputs are ordinary strict cases',
+    'the object discipline of Hist.v (which dictionary object a query returns / rewrites) is tied to the source by the '
+    'generated table GenDisc.src_disc (C07_hquery_follows_source_discipline, re-proved on every run) and by the aliasing / '
+    'history stream; the dictionary VALUES hquery stores are tied by the correspondence only',
+    'ForLoopPT ranges that mention the loop index\'s own name are legal in the code but outside Wf.wf (Python oracle)',
     'the end voltage of a table/point pulse is the value of its last entry (for a trailing hold step that level is '
     'specified but not played for a positive time)',
 ]
@@ -906,7 +919,10 @@ MANIFEST = {
                   'answer after any query history on any templates is quant q p and no older dictionary is written to) '
                   'with C07_cached_const_history_dependent (a memoising ConstantPT, seed C07-4, breaks it); '
                   'C07_scalar_product_{const,func} (time dependent multiplicative scalars over constant / polynomial atoms '
-                  'are embedded as the product polynomial).  Hypotheses: Wf.wf p (checked on every generated case), the '
+                  'are embedded as the product polynomial); round 4: C07_hquery_discipline + '
+                  'C07_hquery_follows_source_discipline (the dictionary-object discipline table of Hist.hquery is proved, on every '
+                  'run, to cover the table a fail-closed AST analysis reads off the twelve classes\' properties in the tree under '
+                  'test).  Hypotheses: Wf.wf p (checked on every generated case), the '
                   'template is instantiable (denote = Some).  Every generated template - single templates and forests '
                   'sharing sub-template objects under query histories - is evaluated on the real code (symbolic '
                   'dictionaries exactly, the instantiated program integrated exactly leaf by leaf, padded program '
@@ -915,12 +931,12 @@ MANIFEST = {
                   'proven guards.',
     'level_note': 'Trusted: Coq kernel, sympy evaluation of Sum/Max/ceiling/floor/sign/Piecewise/subs/integrate '
                   '(modelled semantically, validated per case), harness integrator and generators, the Python oracle for '
-                  'time dependent scalars multiplied with table atoms (not modelled in Coq), the hand-written object '
-                  'discipline of Hist.v. Six known deviations of the unchanged code are listed as known findings '
-                  '(initial-head-empty-or-jump, final-tail-empty, table-constant-detection, arith-over-parallel-order, '
-                  'negative-duration-empty, and new in round 3 mapping-captures-loop-index: sympy.subs of a mapping into '
-                  'a loop\'s Sum(...) captures a name equal to the loop index); five defects were repaired in /repo in '
-                  'rounds 1-2.',
+                  'time dependent scalars multiplied with table / composite atoms or dividing a template, and for loop ranges '
+                  'naming their own index (not modelled in Coq), the dictionary values of Hist.v, the AST discipline analysis. '
+                  'Five known deviations of the unchanged code are listed as known findings (initial-head-empty-or-jump, '
+                  'final-tail-empty, table-constant-detection, arith-over-parallel-order, negative-duration-empty); six defects '
+                  'were repaired in /repo in rounds 1-4 (round 4: the Sum-index capture by MappingPT substitutions and by loop '
+                  'ranges naming their own index, 7d773a1).',
     'technique': 'Coq proof over a hand-written model + exact correspondence check against the real instantiated pulse',
     'design_ref': 'DESIGN.md §5 C07',
 }
